@@ -365,6 +365,12 @@ def check_case(case) -> CaseResult:
             for e in log:
                 if e[0] == "recv" and e[2] is not None and abs(e[3] - due) < 0.0015:
                     nontrivial = True
+    # ---- a state that is not active owns no pending timer (at every quiescent point)
+    for k, o in enumerate(run.steps):
+        owners = [x for x in (o.extra.get("task_owners") or []) if x in tree.nodes and x not in o.cfg]
+        if owners and o.status == "running":
+            res.violate(f"{engine}|timer-pending-for-inactive-state", {"step": k, "op": o.op, "owners": owners[:3], "cfg": sorted(o.cfg)})
+            break
     # ---- nothing survives stop()
     if engine == "async" and run.census_after_stop:
         res.violate("async|tasks-alive-after-stop", {"tasks": run.census_after_stop[:5]})
